@@ -440,8 +440,9 @@ class Family(dbmc.Harness):
                 # further copies (dup_reports) model retries after a lost response
                 if self.opts.get('dup_reports', True) or (a['end_time'] is None and (j, a['attempt_id']) not in getattr(w, 'reported', ())):
                     out.append(('complete', j, a['attempt_id'], inst, s, 10, 20))
-        if self.opts.get('stale_attempt', True) and v.jobs and st['i1'] == 'active':
-            j = v.jobs[0]['job_id']
+        committed_jobs = [j for j in v.jobs if j['update_id'] in v.committed]
+        if self.opts.get('stale_attempt', True) and committed_jobs and st['i1'] == 'active':
+            j = committed_jobs[0]['job_id']   # the scheduler only ever hands out jobs of committed updates
             # the driver POSTs the job to the worker BEFORE it calls schedule_job in the database, so a very short job's
             # completion report can be handled first (attempt unknown to the DB), and the driver's own call arrives late
             if not any(a['attempt_id'] == 'stale1' for a in atts):
